@@ -1024,7 +1024,11 @@ def conc_stage(rep, work, name, systems, clients, runs, ops, keys, gated, race=F
     raced = "DATA RACE" in err
     if p.returncode != 0 and not (raced and os.path.exists(out)):
         if "fatal error:" in err or "panic:" in err:
-            first = err[max(0, err.find("fatal error:")):][:4000]
+            at = min([i for i in (err.find("fatal error:"), err.find("panic:")) if i >= 0])
+            first = err[at:][:4000]
+            if "johannesboyne/gofakes3" not in first and REPO + "/" not in first:
+                # the harness itself crashed (no frame of the code under test in the trace): not a verdict
+                raise Infra("the harness crashed:\n" + first[:2000])
             rp = os.path.join(OUT, "replays", rep.prop + "-fatal-%s.txt" % hashlib.sha1(first.encode()).hexdigest()[:16])
             with open(rp, "w") as f:
                 f.write(first)
